@@ -115,8 +115,24 @@ def get_item(w, item, i):
 # ----------------------------------------------------------------------------------------------
 # object graphs of the dataset layer
 # ----------------------------------------------------------------------------------------------
+def _public_slot(obj, attr, v):
+    """a private backing attribute of a property (`_transform` behind `transform`) is the slot `transform`"""
+    if attr.startswith("_"):
+        pub = attr.lstrip("_")
+        try:
+            if isinstance(getattr(type(obj), pub, None), property) and getattr(obj, pub) is v:
+                return pub
+        except Exception:  # noqa
+            pass
+    return attr
+
+
 def layer_kids(obj):
     """[(slot, transform)] held by a dataset layer: direct attrs, lists, configs with .transform; alias lists win over their members"""
+    return [(_public_slot(obj, a, vars(obj).get(a)), t) for a, t in _layer_kids_raw(obj)]
+
+
+def _layer_kids_raw(obj):
     bases = kd_bases()
     out = []
     listed = set()
